@@ -11,7 +11,8 @@ LEVEL = ("Static structural conditions: the only writers of NutsTree.draw are th
          "Rc::get_mut (R5); the dim-0 path returns before any leapfrog (R6). Step-count/index inequalities and exact termination are not decided."
          " Added: energy snapshot (R7); the dot-product kernels reachable from is_turning satisfy the C17 kernel rules (R8)."
          " Added (round 4): the doubling loop may have any shape - every path of one iteration to extend() must have passed tree.depth < maxdepth and the loop is left where that failed (R4 by path enumeration); the reported step count is fed only from the collector of the trajectory (R11)."
-         " Added (round 5): every adapt() refreshes the per-draw statistics on every path that returns Ok (R11 every-draw clause).")
+         " Added (round 5): every adapt() refreshes the per-draw statistics on every path that returns Ok (R11 every-draw clause)."
+         " Added (round 6): the Transformation entry points go through position map, density and gradient map on every path and return their own log-determinant (R12 = C02-R4); transformation_id returns the live id, not a remembered copy (R13 = C02-R15).")
 EXPLANATION = "Field-writer inventories (EFF), value provenance (FLOW) and dominance/control-dependence (DOM) on MIR; unsafe inventory on HIR."
 TRUSTED = ["rustc nightly MIR/HIR", "nutsfacts extractor", "rules/c03.py"]
 TECHNIQUE = "static analysis: field-writer inventory + value provenance + dominance on MIR; unsafe-block inventory on HIR"
